@@ -284,12 +284,22 @@ def more_cases(rng, n):
                 # start/second-point: keep the two points within two centuries of each other - the cost of deriving
                 # the interval is linear in the days spanned (known finding F10), and a wider span only measures it
                 second = start
+
+                def year_of(text):
+                    """The year a default parser (two expanded digits) reads at the head of the text, if it is
+                    certain: CCYY..., or a signed +XXCCYY...; anything shorter may be read as a century."""
+                    mt = re.match(r"([+-])(\d{6})", text)
+                    if mt:
+                        return int(mt.group(1) + mt.group(2))
+                    mt = re.match(r"(\d{4})(?!\d{2}$)", text)
+                    if mt and text[:1] not in "+-" and len(text) > 4:
+                        return int(mt.group(1))
+                    return None
+                ya = year_of(start)
                 for _ in range(20):
                     cand = iso_point(rng, m)
-                    ya, yb = re.match(r"[+-]?\d{1,6}", start), re.match(r"[+-]?\d{1,6}", cand)
-                    if ya and yb and len(ya.group(0).lstrip("+-")) == len(yb.group(0).lstrip("+-")) and \
-                            abs(int(ya.group(0)[:5 if ya.group(0)[0] in "+-" else 4])
-                                - int(yb.group(0)[:5 if yb.group(0)[0] in "+-" else 4])) <= 150:
+                    yb = year_of(cand)
+                    if ya is not None and yb is not None and abs(ya - yb) <= 150:
                         second = cand
                         break
                 text = "R%s/%s/%s" % (reps, start, second)
